@@ -168,7 +168,13 @@ def r3_lookup_chain(ctx: Ctx) -> None:
     def not_local(c: frozenset) -> bool:
         return (local_true, False) in c or ((f"{sym} in self.symbols", False) in c and (f"{sym} in self.code_symbols", False) in c)
     def is_local(c: frozenset) -> bool:
-        return (local_true, True) in c
+        if (local_true, True) in c:
+            return True
+        # `if self.parent and sym not in self.symbols and sym not in self.code_symbols: <delegate>` ... own entry otherwise
+        for t, pol in c:
+            if not pol and set(t.split(" and ")) == {"self.parent", f"{sym} not in self.symbols", f"{sym} not in self.code_symbols"}:
+                return True
+        return False
     ok = all(not_local(c) and ("self.parent", True) in c for _v, c in deleg) and all(is_local(c) or ("self.parent", False) in c for _v, c in own)
     ctx.check(ok, "Scope.value_for:local-first", f"a name defined in this scope wins; only otherwise is the parent consulted (innermost definition); found: {show(vff)}")
     ctx.check(any(("self.parent", False) in c for _v, c in own), "Scope.value_for:root", "the root scope answers from its own tables (and raises when absent)")
@@ -210,9 +216,15 @@ def get_table_own_first(gt) -> bool:
 
 def r4_export(ctx: Ctx) -> None:
     rs = ctx.repo.func(SYMBOLS, "Resolver.restore_scope")
-    exp_if = [s for s in rs.node.body if isinstance(s, ast.If) and "exports" in unparse(s.test)]
-    ok = len(exp_if) == 1 and canon(rs.node, exp_if[0].test) == "exports and isinstance(self.current_scope, NamedScope)"
-    ctx.check(ok, "Resolver.restore_scope:export-condition", "exports happen for named scopes only, when requested")
+    site = _export_site(rs)
+    if site is None:
+        ctx.fail("Resolver.restore_scope:export-condition", "no export of the scope's symbols into the enclosing scope")
+    else:
+        from ..cfg import CFG
+        g = CFG(rs.node)
+        conds = g.path_conditions(g.node_of(site), rs.node)
+        ok = ("exports", True) in conds and ("isinstance(self.current_scope, NamedScope)", True) in conds
+        ctx.check(ok, "Resolver.restore_scope:export-condition", f"exports happen for named scopes only, when requested; conditions at the export: {sorted(conds)}")
     good = _export_form(rs)
     ctx.check(good, "Resolver.restore_scope:export", "every symbol k of the scope becomes `name.k` with the same value in the enclosing scope")
     tail = [s for s in rs.node.body if isinstance(s, ast.If) and unparse(s.test) == "self.current_scope.parent is not None"]
@@ -227,6 +239,18 @@ def r4_export(ctx: Ctx) -> None:
     p = al.params()
     ctx.check(body == [f"self.labels[{p[1]}] = {p[2]}.logical_value", f"self.add_symbol({p[1]}, {p[2]}.logical_value)"], "Scope.add_label", "a label is also a symbol with its logical address")
     ctx.count("export_facts", 5)
+
+
+def _export_site(rs):
+    """the statement that writes into the parent's symbols"""
+    for n in walk_no_nested(rs.node):
+        if isinstance(n, ast.AugAssign) and isinstance(n.value, ast.DictComp):
+            return n
+        if isinstance(n, ast.Expr) and isinstance(n.value, ast.Call) and isinstance(n.value.func, ast.Attribute) and n.value.func.attr == "update":
+            return n
+        if isinstance(n, ast.For) and canon(rs.node, n.iter).endswith(".symbols.items()"):
+            return n
+    return None
 
 
 def _export_form(rs) -> bool:
